@@ -148,6 +148,24 @@ pub fn free(seed: u64, runs: usize, dir: &str, maxlen: usize) {
             recs
         };
         let wrap = if i % 4 == 0 || huge { 0 } else { rng.range(1, 200) as usize };
+        // indented records and blanks between blocks of letters (as in flat-file exports): a blank or tab that is not the last
+        // byte of its line is a base like any other byte, and positions downstream count it
+        let mut recs = recs;
+        for (j, r) in recs.iter_mut().enumerate() {
+            if (i + j) % 4 != 1 || r.seq.len() < 3 {
+                continue;
+            }
+            let mut at = vec![0usize, rng.below(r.seq.len() as u64) as usize];
+            if j % 2 == 0 {
+                at.push(1);
+            }
+            for p in at {
+                let line_final = p + 1 == r.seq.len() || (wrap > 0 && (p + 1) % wrap == 0);
+                if !line_final {
+                    r.seq[p] = *rng.pick(b"  \t");
+                }
+            }
+        }
         let crlf = i % 5 == 1;
         let final_nl = i % 6 != 2;
         let lay = Layout { fastq, wrap, crlf, final_nl };
